@@ -407,6 +407,11 @@ where
             return Err(SparseFormatError::IncompatibleDimension);
         }
 
+        //the first column starts at the first stored entry
+        if self.colptr[0] != 0 {
+            return Err(SparseFormatError::BadColptr);
+        }
+
         //check for colptr monotonicity
         if self.colptr.windows(2).any(|c| c[0] > c[1]) {
             return Err(SparseFormatError::BadColptr);
